@@ -125,7 +125,10 @@ func getDocumentTitle(root *html.Node, wc stringutil.WordCounter) string {
 		}
 	} else if stringutil.CharCount(curTitle) > 150 || stringutil.CharCount(curTitle) < 15 {
 		if headings := domutil.WithoutTemplateContent(dom.QuerySelectorAll(root, "h1")); len(headings) > 0 {
-			h1 := headings[0]
+			// The content of <noscript> is a single node of raw text, the
+			// markup of a fallback and not words of the heading.
+			h1 := dom.Clone(headings[0], true)
+			dom.RemoveNodes(dom.GetElementsByTagName(h1, "noscript"), nil)
 			curTitle = domutil.InnerText(h1)
 		}
 	}
